@@ -8,7 +8,6 @@ stated. They are hand-written, but **tied to the source by proof**: the translat
 `Gen/P20.lean … P40.lean` on every run and `Props/ParseTie.lean` proves, for every byte string (and every stale pool buffer
 for v2.0), that the regenerated parser returns the same object / the same error as the model below and never panics.
 The tables they consult (`tbl_order`, `const_header`) and the `Set` they store through are the regenerated ones.
-(`Model/SrcTie.lean`, an earlier tie by source hashes, is kept but no longer used by any check.)
 
 Error codes (shared with the translator and the harness):
 1 ErrInvalidCVSSHeader, 2 ErrTooShortVector, 3 ErrInvalidMetricOrder, 4 ErrInvalidMetricValue,
